@@ -1108,4 +1108,42 @@ theorem WF.fset {fs : Fs} (h : WF fs) {p : Path} {n : Node} (hp : p ≠ [])
         rw [hkeep hpe]
       · exact hpe
 
+/-! ## names as data (`stem`, `stubN`) -/
+
+theorem splitLastDot_none {s : Name} (h : '.' ∉ s) : splitLastDot s = none := by
+  induction s with
+  | nil => rfl
+  | cons c r ih =>
+    have hc : c ≠ '.' := fun e => h (by simp [e])
+    have hr : '.' ∉ r := fun m => h (by simp [m])
+    simp [splitLastDot, ih hr, hc]
+
+theorem splitLastDot_append (x s : Name) (h : '.' ∉ s) : splitLastDot (x ++ '.' :: s) = some (x, s) := by
+  induction x with
+  | nil => simp [splitLastDot, splitLastDot_none h]
+  | cons c r ih => simp [splitLastDot, ih]
+
+/-- what `stubN .okRes` leaves behind, given an input file holding `b` -/
+theorem stubN_okRes_run {fs fsc : Fs} {inp out p : Path} {fmt : List Char} {b : Bytes}
+    (hin : fget fs inp = some (.file b))
+    (hrun : stubN .okRes fmt fs inp out = (.ok (.path p), fsc)) :
+    p = out ++ [convName fmt inp]
+    ∧ fget fsc p = some (.file (stubBytes fmt b))
+    ∧ fget fsc (resourcesOf p) = some .dir
+    ∧ fget fsc (resourcesOf p ++ [['r', '.', 't', 'x', 't']]) = some (.file ['r', 'e', 's', 'o', 'u', 'r', 'c', 'e'])
+    ∧ fget fsc (resourcesOf p ++ [['s', 'u', 'b']]) = some .dir
+    ∧ fget fsc (resourcesOf p ++ [['s', 'u', 'b'], ['s', '.', 't', 'x', 't']]) = some (.file ['n', 'e', 's', 't', 'e', 'd']) := by
+  unfold stubN stub at hrun
+  simp only [hin] at hrun
+  obtain ⟨hp, hfs⟩ := Prod.mk.inj hrun
+  have hp' : p = out ++ [convName fmt inp] := by
+    injection hp with hp; injection hp with hp; exact hp.symm
+  subst hp'
+  have hres : resourcesOf (out ++ [convName fmt inp]) = out ++ [convName fmt inp ++ filesSuffix] := by
+    simp [resourcesOf]
+  rw [hres, ← hfs]
+  have hne : convName fmt inp ++ filesSuffix ≠ convName fmt inp := str_append_ne _
+  refine ⟨rfl, ?_, ?_, ?_, ?_, ?_⟩ <;>
+    simp [fget_fset, filesSuffix]
+
 end Proofs.Export
